@@ -134,10 +134,21 @@ def main():
     faulthandler.dump_traceback_later(float(budget) * 4 + 240, exit=True)
     ctx = Ctx(prop, int(shard), int(nshards), tier, int(seed), out, float(budget), replay)
     mod = importlib.import_module(f"vf.checks.{prop.lower()}")
+    from vf.rt.mechcov import MechCov
+
+    cov = MechCov(prop)
+    try:
+        cov.start()
+    except Exception as ex:  # observer unavailable: evidence says so, verdicts do not depend on it
+        ctx.extra(mechanism_observer_error=f"{type(ex).__name__}: {ex}")
     try:
         mod.run_shard(ctx)
     except BaseException as ex:  # harness failure, not a verdict about the library
         ctx.inconclusive(f"worker exception {type(ex).__name__}: {ex} :: " + traceback.format_exc()[-1500:])
+    try:
+        ctx.mech(cov.report())
+    except Exception as ex:
+        ctx.extra(mechanism_observer_error=f"{type(ex).__name__}: {ex}")
     ctx.finish()
     sys.stdout.flush()
     os._exit(0)
